@@ -51,6 +51,7 @@ package parse
 //@   ensures old(l.pos) < len(l.input) ==> result >= 0 && 1 <= l.width && l.width <= 4 && l.pos == old(l.pos) + l.width && l.pos <= len(l.input)
 //@   ensures old(l.pos) < len(l.input) && l.input[old(l.pos)] < 128 ==> result == l.input[old(l.pos)] && l.width == 1
 //@   ensures old(l.pos) < len(l.input) && l.input[old(l.pos)] >= 128 ==> result >= 128
+//@   ensures[multi-byte-characters-hold-no-ascii;C15] l.width > 1 ==> forall(j, old(l.pos), l.pos, l.input[j] >= 128)
 
 //@ func (*lexer).peek
 //@   props C05
@@ -200,13 +201,19 @@ package parse
 //@     invariant lexerOK(l) && l.pos >= old(l.pos)
 //@     decreases len(l.input) - l.pos
 
+// C15: a block comment (its opener has been read) ends with the FIRST "*/"
+// that lies wholly behind the opener - no earlier, no later - so exactly the
+// comment contributes nothing to the output.
 //@ func lexBlockComment
-//@   props C05
+//@   props C05 C15
 //@   requires lexerOK(l)
 //@   modifies l.pos, l.start, l.width, l.lastEmit
 //@   ensures result != nil ==> lexerOK(l) && l.pos > old(l.pos) && result == lexText
+//@   at call (*lexer).emit#0 assert[comment-ends-at-the-first-star-slash-behind-the-opener;C15] l.pos >= old(l.pos) + 2 && l.input[l.pos-2] == '*' && l.input[l.pos-1] == '/' && forall(k, old(l.pos), l.pos - 2, !(l.input[k] == '*' && l.input[k+1] == '/'))
 //@   loop 0
 //@     invariant lexerOK(l) && l.pos >= old(l.pos)
+//@     invariant[no-terminator-so-far;C15] forall(k, old(l.pos), l.pos - 1, !(l.input[k] == '*' && l.input[k+1] == '/'))
+//@     invariant[star-flag-is-the-last-character;C15] star == (l.pos > old(l.pos) && l.input[l.pos-1] == '*')
 //@     decreases len(l.input) - l.pos
 
 //@ func stringLexer$1
@@ -564,9 +571,17 @@ package parse
 //@     decreases ntoks(t.lex) - cursor(t)
 
 // String literals (quote.go): unquoting cannot index out of range and terminates.
+// C01: the value of a string literal is its text with the escapes resolved,
+// character by character: the body is read one whole RUNE at a time (a
+// multi-byte character is one character of the value, not several).
 //@ func unquoteString
 //@   props C05
 //@   pure
+//@   ghost r0 rune = 0
+//@   ghost w0 int = 0
+//@   at call utf8.DecodeRuneInString#0 assert[body-read-rune-by-rune-from-the-cursor;C01] len(arg0) == n - 2 - i
+//@   at call utf8.DecodeRuneInString#0 after set r0 = res0
+//@   at call utf8.DecodeRuneInString#0 after set w0 = res1
 //@   loop 0
 //@     invariant 0 <= i && i <= len(s) && fresh(result)
 //@     decreases len(s) - i
